@@ -3,13 +3,14 @@
 sugar conversion keeps the single argument), C03 (parentheses that carry comments are not dropped)."""
 from gen import Unit, Fn, Item, Raw, RawFile, Hole, After, Before, Loop, Between
 from common import *
+import lists as LISTS
 import ctx as C
 
 FUN = "src/formatters/functions.rs"
 
 SPEC = r"""
 // ---- spec vocabulary for call arguments ----
-pub uninterp spec fn pvals<T>(p: Punctuated<T>) -> Seq<T>;       // the values of a punctuated list, in order
+pub open spec fn pvals<T>(p: Punctuated<T>) -> Seq<T> { ppairs(p).map_values(|x: Pair<T>| pair_value(x)) }       // the values of a punctuated list, in order
 pub open spec fn pexprs(p: Punctuated<Expression>) -> Seq<Expression> { pvals(p) }
 pub uninterp spec fn tok_has_comments(t: TokenReference, leading: bool) -> bool;  // CommentSearch::All on one side of a token
 pub open spec fn omit_string(c: Config) -> bool { c.no_call_parentheses || c.call_parentheses is None || c.call_parentheses is NoSingleString }
@@ -72,7 +73,6 @@ pub open spec fn separated(a: FunctionArgs, wanted: TokenType) -> bool {
 FM = r"""
 pub assume_specification<T> [Punctuated::<T>::len] (p: &Punctuated<T>) -> (r: usize) ensures r == pvals(*p).len();
 pub assume_specification<T> [Punctuated::<T>::is_empty] (p: &Punctuated<T>) -> (r: bool) ensures r == (pvals(*p).len() == 0);
-pub assume_specification<T> [Punctuated::<T>::new] () -> (r: Punctuated<T>) ensures pvals(r).len() == 0;
 #[verifier::external_body] pub fn first_arg(p: &Punctuated<Expression>) -> (r: &Expression) requires pexprs(*p).len() >= 1 ensures *r == pexprs(*p)[0] { unimplemented!() /* arguments.iter().next().unwrap() */ }
 #[verifier::external_body] pub fn push_end(p: &mut Punctuated<Expression>, e: Expression) ensures pexprs(*final(p)) == pexprs(*old(p)).push(e) { unimplemented!() /* arguments.push(Pair::new(e, None)) */ }
 impl GetTrailingTrivia for TokenReference { }
@@ -94,6 +94,26 @@ def items():
     its = [x for x in common_items()]
     its += [
         Raw(C.SPEC_WS, module="context"),
+        Raw(LISTS.SPEC, module="formatters::general"),
+        Fn("src/formatters/general.rs", "format_punctuated", mode="stub", proved_in="lists", sig_edits=[Hole("T: std::fmt::Display,", "", kind="proxy", why="the Display bound is only used for a width")], contract="""
+    requires forall|i: int, s: Shape| 0 <= i < ppairs(*old).len() ==> #[trigger] value_formatter.requires((ctx, &pair_value(ppairs(*old)[i]), s)),
+    ensures ppairs(r).len() == ppairs(*old).len(),
+            forall|i: int| 0 <= i < ppairs(*old).len() ==> by_item_formatter(value_formatter, ctx, pair_value(#[trigger] ppairs(*old)[i]), pair_value(ppairs(r)[i])),
+"""),
+        Fn("src/formatters/general.rs", "format_contained_punctuated_multiline", mode="stub", proved_in="lists", contract="""
+    requires forall|i: int, s: Shape| 0 <= i < ppairs(*arguments).len() ==> #[trigger] argument_formatter.requires((ctx, &pair_value(ppairs(*arguments)[i]), s)),
+    ensures ppairs(r.1).len() == ppairs(*arguments).len(),
+            forall|i: int| 0 <= i < ppairs(*arguments).len() ==> by_item_formatter_modulo_trivia(argument_formatter, ctx, pair_value(#[trigger] ppairs(*arguments)[i]), pair_value(ppairs(r.1)[i])),
+"""),
+        Fn(EX, "hang_expression", mode="stub", proved_in="expr", contract="requires wf(skel(*expression)), ensures erase(skel(r)) == erase(skel(*expression)),"),
+        Fn(TU, "can_hang_expression", mode="stub"),
+        Fn(FUN, "format_argument_multiline", contract="""
+    requires wf(skel(*argument)),
+    ensures erase(skel(r)) == erase(skel(*argument)), //# C02.argument_multiline_same
+""", edits=[
+            Hole("argument.has_inline_comments()", "hole_bool()", why="trivia_util::HasInlineComments (iterator over the tokens): chooses the layout only"),
+            Hole("strip_trivia(&infinite_width_argument).to_string().len()", "hole_usize()", why="Display width of the argument"),
+        ]),
         Raw(SPEC),
         Raw(FM.replace("impl GetTrailingTrivia for TokenReference { }\n", "")),
         Fn(CTX, "should_omit_string_parens", impl_of="Context", mode="stub", proved_in="ctx", contract="ensures r == omit_string(self.config),"),
@@ -134,12 +154,31 @@ impl UpdateLeadingTrivia for FunctionArgs {
 #[verifier::external_body] pub fn paren_close_trailing(parentheses: &ContainedSpan) -> (r: Vec<Token>) { unimplemented!() /* parentheses.tokens().1.trailing_trivia().cloned().collect() */ }
 #[verifier::external_body] pub fn strip_leading_whitespace_of_arguments(arguments: Punctuated<Expression>) -> (r: Punctuated<Expression>)
     ensures pexprs(r).len() == pexprs(arguments).len(), forall|i: int| 0 <= i < pexprs(r).len() ==> skel(#[trigger] pexprs(r)[i]) == skel(pexprs(arguments)[i]) { unimplemented!() }
-#[verifier::external_body] pub fn format_arguments_single_line(ctx: &Context, arguments: &Punctuated<Expression>, shape: Shape) -> (r: Punctuated<Expression>)
+// the expression the wrapper stands for, verified against the generic contract of format_punctuated (proved in unit lists) and format_expression's
+pub fn format_arguments_single_line(ctx: &Context, arguments: &Punctuated<Expression>, shape: Shape) -> (r: Punctuated<Expression>)
     requires forall|i: int| 0 <= i < pexprs(*arguments).len() ==> wf(skel(#[trigger] pexprs(*arguments)[i])),
-    ensures pexprs(r).len() == pexprs(*arguments).len(), forall|i: int| 0 <= i < pexprs(r).len() ==> erase(skel(#[trigger] pexprs(r)[i])) == erase(skel(pexprs(*arguments)[i])) { unimplemented!() /* format_punctuated(ctx, arguments, shape, format_expression) */ }
-#[verifier::external_body] pub fn format_arguments_multiline(ctx: &Context, parentheses: &ContainedSpan, arguments: &Punctuated<Expression>, shape: Shape) -> (r: (ContainedSpan, Punctuated<Expression>))
+    ensures pexprs(r).len() == pexprs(*arguments).len(), forall|i: int| 0 <= i < pexprs(r).len() ==> erase(skel(#[trigger] pexprs(r)[i])) == erase(skel(pexprs(*arguments)[i]))
+{
+    proof { assert forall|i: int, s: Shape| 0 <= i < ppairs(*arguments).len() implies #[trigger] call_requires(format_expression, (ctx, &pair_value(ppairs(*arguments)[i]), s)) by { assert(wf(skel(pexprs(*arguments)[i]))); } }
+    let r = format_punctuated(ctx, arguments, shape, format_expression);
+    proof { assert forall|i: int| 0 <= i < pexprs(r).len() implies erase(skel(#[trigger] pexprs(r)[i])) == erase(skel(pexprs(*arguments)[i])) by { assert(by_item_formatter(format_expression, ctx, pair_value(ppairs(*arguments)[i]), pair_value(ppairs(r)[i]))); } }
+    r
+}
+pub fn format_arguments_multiline(ctx: &Context, parentheses: &ContainedSpan, arguments: &Punctuated<Expression>, shape: Shape) -> (r: (ContainedSpan, Punctuated<Expression>))
     requires forall|i: int| 0 <= i < pexprs(*arguments).len() ==> wf(skel(#[trigger] pexprs(*arguments)[i])),
-    ensures pexprs(r.1).len() == pexprs(*arguments).len(), forall|i: int| 0 <= i < pexprs(r.1).len() ==> erase(skel(#[trigger] pexprs(r.1)[i])) == erase(skel(pexprs(*arguments)[i])) { unimplemented!() /* format_contained_punctuated_multiline(.., format_argument_multiline, ..) */ }
+    ensures pexprs(r.1).len() == pexprs(*arguments).len(), forall|i: int| 0 <= i < pexprs(r.1).len() ==> erase(skel(#[trigger] pexprs(r.1)[i])) == erase(skel(pexprs(*arguments)[i]))
+{
+    proof { assert forall|i: int, s: Shape| 0 <= i < ppairs(*arguments).len() implies #[trigger] call_requires(format_argument_multiline, (ctx, &pair_value(ppairs(*arguments)[i]), s)) by { assert(wf(skel(pexprs(*arguments)[i]))); } }
+    let r = format_contained_punctuated_multiline(
+                    ctx,
+                    parentheses,
+                    arguments,
+                    format_argument_multiline,
+                    shape,
+                );
+    proof { assert forall|i: int| 0 <= i < pexprs(r.1).len() implies erase(skel(#[trigger] pexprs(r.1)[i])) == erase(skel(pexprs(*arguments)[i])) by { assert(by_item_formatter_modulo_trivia(format_argument_multiline, ctx, pair_value(ppairs(*arguments)[i]), pair_value(ppairs(r.1)[i]))); } }
+    r
+}
 pub assume_specification [<TableConstructor as Clone>::clone] (b: &TableConstructor) -> (r: TableConstructor) ensures r == *b;
 """, module="formatters::functions"),
         Raw("""
@@ -338,6 +377,7 @@ LABELS = {
     "C10.separator_or_indent": dict(props=["C10", "C11"], text="separator_or_indent: behind a line break the separator is the indent of the new line (never a space in front of the indentation), nothing where the line is already indented, and the wanted separator otherwise"),
     "C10.sugar_argument_separated": dict(props=["C10", "C11"], text="format_function_args: a string / table argument written without parentheses is separated from the function name by one space, or indented on its own line behind comments"),
     "C11.method_call_form": dict(props=["C11", "C02", "C10"], text="format_method_call: the same method name and arguments, the arguments in the form format_function_args decides, separated from the name as space_after_function_names says (indented on their own line behind comments; on a new line behind a line comment on the name)"),
+    "C02.argument_multiline_same": dict(props=["C02"], text="format_argument_multiline: whichever of the three layouts it picks (infinite width, hanging, plain), the argument keeps its expression tree"),
     "C11.suffix_form": dict(props=["C11", "C02"], text="format_suffix: a call suffix gets the form format_call / format_method_call decide for the `obscure` flag it is given, same arguments; an index stays the same index"),
     "C02.call_chain_same": dict(props=["C02"], text="format_function_call: as many suffixes as the input"),
     "C11.call_chain_forms": dict(props=["C11", "C02"], text="format_function_call: every suffix of the chain has the form the call_parentheses table gives for it, with `an index or a method call follows` computed from the suffix behind it (the exception that keeps f(\"x\").y from becoming f \"x\".y), same arguments, same order"),
@@ -345,4 +385,4 @@ LABELS = {
     "C11.call_form": dict(props=["C11", "C02"], text="format_call: an anonymous call's arguments get the form format_function_args decides, same arguments"),
 }
 
-UNIT = Unit("args", items() + [VERIF_MOD], LABELS, header=HEADER)
+UNIT = Unit("args", items() + [VERIF_MOD], LABELS, header=HEADER + "use full_moon::ast::punctuated::Pair;\n")
